@@ -744,6 +744,18 @@ func c17CharClass(r *core.Run, rule string, only map[string]bool) {
 				bad = fmt.Sprintf("rejects the ordinary character %q", ch)
 			}
 		}
+		if v.name != "(Pattern).IsValid" {
+			// a resource id / a name part is a concrete name: '*' and '>' are refused wherever they stand
+			// (as a whole token they are wildcards of a pattern, inside a token registration refuses them)
+			for _, ch := range "*>" {
+				if (cc.Accept[int(ch)] || cc.AcceptMid[int(ch)]) && bad == "" {
+					bad = fmt.Sprintf("accepts the wildcard character %q in some position", ch)
+				}
+			}
+		}
+		if !cc.AcceptMid['b'] && bad == "" {
+			bad = "rejects an ordinary character behind another one"
+		}
 		if cc.Extractions == 0 {
 			bad = "does not look at the characters of its argument"
 		}
